@@ -294,6 +294,32 @@ def r03l(F):
 	import chainrules
 	return chainrules.restart_replay_guard(F, '03.l')
 
+def r03m(F):
+	"""stale-manager restart: the HTLCs the manager fails back for a channel it must force-close are ALL outbound HTLCs the channel still holds
+	(inflight_htlc_sources is unfiltered on pending_outbound_htlcs: an HTLC in any state, including one whose removal is only awaiting the peer's
+	revocation, is still the manager's to resolve when the monitor no longer knows it)"""
+	out = []
+	fn = 'lightning::ln::channel::FundedChannel::inflight_htlc_sources'
+	fam = F.family(fn)
+	main = F.func(fn)
+	ex = Expr(main)
+	iters = [b for b, ci in main.calls() if norm(ci.get('f') or '').endswith('::iter') and ci['args'] and leaf_key(ex.of_operand(ci['args'][0])).endswith('pending_outbound_htlcs')]
+	bad = []
+	SELECTIVE = ('::filter', '::filter_map', '::take_while', '::skip_while', '::skip', '::take', '::step_by', '::find', '::flat_map')
+	for b, ci in main.calls():
+		f = norm(ci.get('f') or ci.get('t') or '')
+		if f.endswith(SELECTIVE) and ci['args'] and 'pending_outbound_htlcs' in leaf_key(ex.of_operand(ci['args'][0])):
+			bad.append('%s over pending_outbound_htlcs (line %s)' % (f.rsplit('::', 1)[-1], main.line_of(b)))
+	for n in fam:
+		cu = F.func(n)
+		for bi, si, st in cu.stmts():
+			if st[2][0] == 'disc' and 'OutboundHTLCState' in (cu.locals[st[2][1][0]].get('ty') or ''):
+				bad.append('a test of the OutboundHTLCState (line %s)' % st[0])
+	ok = bool(iters) and not bad
+	out.append(Result('03.m', ok, ('ok:' if ok else 'filtered:') + 'inflight-sources-unfiltered', 'inflight_htlc_sources reports every entry of pending_outbound_htlcs (%d iteration(s))%s' % (len(iters), '' if not bad else '; selective steps: %s - an outbound HTLC left out here is never failed back when a stale manager is reloaded, and its payment stays pending for ever' % bad), len(iters) + len(bad), where=F.where(fn)))
+	out += P1_who_may_call(F, '03.m', [fn], ['lightning::ln::channelmanager::ChannelManager::compute_inflight_htlcs', 'lightning::ln::channelmanager::ChannelManager::from_channel_manager_data'], floor=2)
+	return out
+
 RULES = [
 	('03.a', 'terminal events are constructed only at the frozen sites; claim/fail are entered only from the manager funnels', r03a),
 	('03.b', 'PaymentSent only when not yet fulfilled, then mark_fulfilled; hash = SHA256(same preimage)', r03b),
@@ -305,5 +331,6 @@ RULES = [
 	('03.i', 'paths handed to a channel (Ok / MonitorUpdateInProgress) stay in flight: classifier, path-failed events and sender agree', r03i),
 	('03.k', 'the payment-complete monitor release rides on the last (terminal) event pushed by fail_htlc', r03k),
 	('03.l', 'restart-time replay of on-chain failures waits for the confirmation threshold', r03l),
+	('03.m', 'stale-manager restart fails back every outbound HTLC the channel holds (inflight_htlc_sources unfiltered)', r03m),
 	('03.j', 'failures / forwards / finalized claims parked behind a monitor update are all returned when it completes, at every exit', r03j),
 ]
